@@ -1,6 +1,8 @@
 import OxyModel.Props.C08
 #print axioms C08.C08_target_roundtrip
 #print axioms C08.C08_target_roundtrip_absolute
+#print axioms C08.C08_form_parsed_counterexample
+#print axioms C08.C08_user_agent
 #print axioms C08.C08_host
 #print axioms C08.C08_hop_by_hop_removed
 #print axioms C08.C08_end_to_end_preserved
